@@ -1083,6 +1083,7 @@ pub fn run(spec: &RunSpec) -> ! {
     let prefill = sim::work(4);
     let full_pipe = mode != Mode::Tokio && sim::work(8) == 0;
     let reactor_thread = sim::work(2) == 0;
+    let construct_inject = mode != Mode::Tokio && sim::work(4) == 0;
     let policy = match sim::work(8) {
         0 | 1 => Policy::Uniform,
         2 => Policy::Sticky(5),
@@ -1132,7 +1133,9 @@ pub fn run(spec: &RunSpec) -> ! {
         x.mode = mode;
         x.exf = exf;
         for s in initial.iter() {
-            x.watched.push((*s, 0, Some(0)));
+            // (the constructor's add_signal calls are invoked at event 0 and return when the
+            // constructor does: stamped below)
+            x.watched.push((*s, 0, None));
             x.inject_sigs.push(*s);
         }
         if let Some(u) = unwatched {
@@ -1156,6 +1159,11 @@ pub fn run(spec: &RunSpec) -> ! {
     // ---- set-up (thread 0, sequential)
     if let Some(u) = unwatched {
         unsafe { signal_hook_registry::register(u, || ()).expect("register unwatched") };
+    }
+    // in a quarter of the runs signals already arrive (nested, on this thread) while the instance
+    // is being constructed: between the registration of a listed signal and the constructor's return
+    if construct_inject {
+        sim::set_injector(injector());
     }
     let with_pipe = matches!(mode, Mode::Pending | Mode::Poll);
     let mut tokio_rt: Option<std::sync::Arc<tokio::runtime::Runtime>> = None;
@@ -1247,6 +1255,17 @@ pub fn run(spec: &RunSpec) -> ! {
         Inst::DRaw(d) => d.handle(),
         Inst::DOrigin(d) => d.handle(),
     };
+    {
+        // the constructor has returned: its add_signal calls are complete
+        let x = w();
+        x.seq += 1;
+        let now = x.seq;
+        for e in x.watched.iter_mut() {
+            if e.2.is_none() {
+                e.2 = Some(now);
+            }
+        }
+    }
     sim::set_injector(injector());
 
     // ---- threads
